@@ -1,38 +1,58 @@
 --------------------------- MODULE MappingAlgebra ---------------------------
-(* C09 (L2): the mapping bookkeeping of the workflow
-       SetModelPass -> placement pass -> GeneralizedSabreLayoutPass -> GeneralizedSabreRoutingPass -> ApplyPlacement
+(* C09 (L2): the mapping bookkeeping of WORKFLOWS OF ANY SHAPE built from
+       SetModelPass | placement pass (Greedy / Trivial / Static) | layout pass (Sabre / PAM) |
+       routing pass (Sabre / PAM) | ApplyPlacement
+   on ONE PassData, in any order and any number of times (a second routing after a first one, re-routing
+   after the machine changed, Route-Apply-Layout-Route-Apply as the SeqPAM workflow of compile() does, ...),
    as a state machine, next to the ground truth it is supposed to describe.
 
    Code side (what the passes write, formula by formula):
-     placement         PassData.placement        SetModelPass resets it to 0..n-1; the placement pass sets it;
-                                                 the layout pass permutes it with _apply_perm(pi, placement):
-                                                 placement[q] <- placement[pi[q]]; ApplyPlacement resets it to 0..N-1
-     im, fm            PassData.initial_mapping / final_mapping (identity on a fresh PassData);
-                                                 routing: fm <- [pi[x] for x in fm]; ApplyPlacement: placement[.] of both
-     pi                the router's logical -> position list; _apply_swap((a, b), pi) exchanges the two ENTRIES whose
-                       VALUES are a and b (pi.index(a), pi.index(b))
+     placement         PassData.placement        SetModelPass resets it to 0..w-1 (w = current circuit width);
+                                                 a placement pass sets it; a layout pass permutes it with
+                                                 _apply_perm(pi, placement): placement[q] <- placement[pi[q]];
+                                                 ApplyPlacement resets it to 0..N-1
+     im, fm            PassData.initial_mapping / final_mapping (identity on a fresh PassData; their length is the
+                       number of LOGICAL qudits for ever, their values are wires of the current circuit);
+                                                 routing: fm <- [pi[x] for x in fm]  -- composed onto the FINAL
+                                                 mapping: a routing pass that starts when fm # im (any routing but
+                                                 the first) must not forget the earlier movements;
+                                                 ApplyPlacement: placement[.] of both
+     pi                the router's position -> wire list over the w wires of the circuit being routed;
+                       _apply_swap((a, b), pi) exchanges the two ENTRIES whose VALUES are a and b
      lead              leading_swaps, the swaps since the last executed gate, undone (on pi and on the circuit) by the
                        local-minimum escape
+     w, np             width of the circuit (logical qudits at first, the machine's after ApplyPlacement) and size of
+                       the machine set last (SetModelPass refuses a machine smaller than the circuit)
    Ground truth (what the circuit does), independent of the formulas above:
-     tok0[w], tok[w]   the logical qudit ("token") that enters / leaves the circuit built so far on wire w (-1: none).
+     tok0[x], tok[x]   the token that enters / leaves the circuit built so far on wire x: logical qudit 0..nl-1, or a
+                       blank (negative, unique) on a wire ApplyPlacement added.
                        A SwapGate appended on wires (a, b) exchanges tok[a] and tok[b]; popping it exchanges them
-                       back; ApplyPlacement renames wire w to physical qudit placement[w].
+                       back; ApplyPlacement renames wire x to physical qudit placement[x]; routing an already routed
+                       circuit again re-places its old swaps like any other gate, so the circuit after routing is
+                       (net permutation of the NEW swaps) o (circuit before): the new swaps act on tok.
+     tokS              tok at the start of the current routing pass (what pi is relative to)
+   Flags that depend on the SHAPE of the workflow only (which passes ran, on machines of which size):
+     legal             a routing pass has run since the placement / the machine last changed
+     applied           wire x of the circuit IS physical qudit x (w = np and placement = identity)
+   The circuit is one the property speaks about ("after placement, layout and routing and applying the placement")
+   exactly when legal /\ applied: those are the points where the harness hands the real circuit to RoutingAbs (L1).
 
    Invariants: the published mappings are the token positions (tok0[im[l]] = l and tok[fm[l]] = l), during
-   routing tok[pi[x]] = x, mappings and placement are injective and in range, the placement is connected.
+   routing tok[pi[x]] = tokS[x], mappings and placement are injective and in range, tokens are conserved,
+   applied means what it says.
 
    The actions take their parameters explicitly so that MappingTrace.tla can replay recorded runs of the real
-   passes through them. *)
+   passes through them and MappingGen.tla can generate workflows from them. *)
 EXTENDS Naturals, Integers, Sequences, FiniteSets, TLC
 
-CONSTANTS NL,          \* logical qudits (circuit width before ApplyPlacement); the state carries them as nl, np so that
-                       \* MappingTrace.tla can replay runs of any size
-          NP,          \* physical qudits of the machine
-          GraphMode,   \* "all": every connected graph on NP vertices; "rep": a representative set
-          MaxSwaps     \* bound on the number of swaps routing emits
+CONSTANTS NL,          \* logical qudits; the state carries them as nl so that MappingTrace.tla can replay runs of any size
+          Sizes,       \* machine sizes SetModel may choose from
+          GraphMode,   \* "all": every connected graph on n vertices; "rep": a representative set; "mixed": all up to 4 vertices
+          MaxSwaps,    \* bound on the number of swaps one routing pass emits
+          MaxSteps     \* bound on the number of passes in a workflow
 
-VARIABLES nl, np, phase, edges, placement, im, fm, pi, lead, nsw, tok0, tok
-vars == <<nl, np, phase, edges, placement, im, fm, pi, lead, nsw, tok0, tok>>
+VARIABLES nl, w, np, phase, edges, placement, im, fm, pi, lead, nsw, tok0, tok, tokS, legal, applied, steps
+vars == <<nl, w, np, phase, edges, placement, im, fm, pi, lead, nsw, tok0, tok, tokS, legal, applied, steps>>
 
 Range(s) == {s[i] : i \in 1..Len(s)}
 Id(n) == [i \in 1..n |-> i - 1]
@@ -45,53 +65,75 @@ Reach(E, S, R) == LET R2 == R \cup {q \in S : \E p \in R : {p, q} \in E} IN IF R
 ConnectedIn(E, S) == S = {} \/ Reach(E, S, {CHOOSE x \in S : TRUE}) = S
 
 Line(n) == {{a, a + 1} : a \in 0..n - 2}
-Ring(n) == Line(n) \cup {{0, n - 1}}
+Ring(n) == Line(n) \cup ({{0, n - 1}} \ {{0}})
 Star(n) == {{0, a} : a \in 1..n - 1}
-Graphs ==
-  IF GraphMode = "all" THEN {E \in SUBSET Pairs(NP) : ConnectedIn(E, 0..NP - 1)}
-  ELSE {Line(NP), Ring(NP), Star(NP), Pairs(NP),
-        Line(NP) \cup {{1, NP - 1}},                       \* a tail on a cycle
-        {{a, (a * 2 + 1) % NP} : a \in 0..NP - 1} \cup Line(NP)} \cap {E \in SUBSET Pairs(NP) : ConnectedIn(E, 0..NP - 1)}
+GraphsOf(n) ==
+  IF n = 1 THEN {{}}
+  ELSE IF GraphMode = "all" \/ (GraphMode = "mixed" /\ n <= 4) THEN {E \in SUBSET Pairs(n) : ConnectedIn(E, 0..n - 1)}
+  ELSE {Line(n), Ring(n), Star(n), Pairs(n),
+        Line(n) \cup ({{1, n - 1}} \ {{1}}),                       \* a tail on a cycle
+        {{a, (a * 2 + 1) % n} : a \in 0..n - 1} \cup Line(n)} \cap {E \in SUBSET Pairs(n) : ConnectedIn(E, 0..n - 1)}
+GraphTable == [n \in Sizes |-> GraphsOf(n)]          \* a constant: TLC evaluates it once
+Graphs(n) == GraphTable[n]
 
 \* data.connectivity = model.coupling_graph.get_subgraph(placement): positions i, j adjacent iff their physical qudits are
 SubEdge(a, b) == a # b /\ {placement[a + 1], placement[b + 1]} \in edges
+PlacedConnected == ConnectedIn(edges, Range(placement))
 
-Exch(f, a, b) == [w \in DOMAIN f |-> IF w = a THEN f[b] ELSE IF w = b THEN f[a] ELSE f[w]]
+Exch(f, a, b) == [x \in DOMAIN f |-> IF x = a THEN f[b] ELSE IF x = b THEN f[a] ELSE f[x]]
 
 -----------------------------------------------------------------------------
-InitFor(n, m) ==
-  /\ nl = n /\ np = m
+InitFor(n) ==
+  /\ nl = n /\ w = n /\ np = 0
   /\ phase = "start" /\ edges = {} /\ placement = Id(n)
   /\ im = Id(n) /\ fm = Id(n) /\ pi = Id(n) /\ lead = <<>> /\ nsw = 0
-  /\ tok0 = [w \in 0..n - 1 |-> w] /\ tok = [w \in 0..n - 1 |-> w]
-Init == InitFor(NL, NP)
+  /\ tok0 = [x \in 0..n - 1 |-> x] /\ tok = [x \in 0..n - 1 |-> x] /\ tokS = [x \in 0..n - 1 |-> x]
+  /\ legal = FALSE /\ applied = FALSE /\ steps = 0
+Init == InitFor(NL)
 
-\* SetModelPass.run: data.model = model; data.placement = list(range(circuit.num_qudits))
-SetModel(E) ==
-  /\ phase = "start"
-  /\ edges' = E /\ placement' = Id(nl) /\ phase' = "model"
-  /\ UNCHANGED <<nl, np, im, fm, pi, lead, nsw, tok0, tok>>
+\* the two shape-only flags after a pass of the given kind (also used by MappingTrace when the code and the model disagree)
+LegalAfter(kind) == IF kind = "route" THEN TRUE ELSE IF kind = "apply" THEN legal ELSE FALSE
+AppliedAfter(kind, flavour, n) ==
+  CASE kind = "setmodel" -> applied /\ n = w          \* the placement is reset to 0..w-1: still "wire = physical qudit" iff same size
+    [] kind = "place" -> flavour = "trivial" /\ w = np   \* only the trivial placement is the identity by definition
+    [] kind = "layout" -> FALSE
+    [] kind = "route" -> applied
+    [] kind = "apply" -> TRUE
 
-\* a placement pass (Greedy: sorted; Trivial: 0..n-1; Static: any order): n distinct physical qudits, connected
-Place(P) ==
-  /\ phase = "model"
-  /\ Len(P) = nl /\ Range(P) \subseteq 0..np - 1 /\ Injective(P) /\ ConnectedIn(edges, Range(P))
-  /\ placement' = P /\ phase' = "placed"
-  /\ UNCHANGED <<nl, np, edges, im, fm, pi, lead, nsw, tok0, tok>>
+\* SetModelPass.run: refuses a machine smaller than the circuit; data.model = model; data.placement = list(range(circuit.num_qudits))
+SetModel(n, E) ==
+  /\ phase \in {"start", "ready"} /\ n >= w
+  /\ np' = n /\ edges' = E /\ placement' = Id(w) /\ phase' = "ready"
+  /\ legal' = LegalAfter("setmodel") /\ applied' = AppliedAfter("setmodel", "", n) /\ steps' = steps + 1
+  /\ UNCHANGED <<nl, w, im, fm, pi, lead, nsw, tok0, tok, tokS>>
 
-\* GeneralizedSabreLayoutPass.run: self._apply_perm(pi, data.placement) for whatever permutation the passes found
-Layout(perm) ==
-  /\ phase = "placed"
-  /\ Len(perm) = nl /\ Range(perm) = 0..nl - 1
-  /\ placement' = [q \in 1..nl |-> placement[perm[q] + 1]]
-  /\ phase' = "laid"
-  /\ UNCHANGED <<nl, np, edges, im, fm, pi, lead, nsw, tok0, tok>>
+\* a placement pass: w distinct physical qudits.  Trivial: 0..w-1 (it raises afterwards when they are not connected);
+\* Greedy: a connected set, published sorted; Static: any assignment (or the previous one when it finds none)
+PlaceOK(kind, P) ==
+  /\ Len(P) = w /\ Range(P) \subseteq 0..np - 1 /\ Injective(P)
+  /\ CASE kind = "trivial" -> P = Id(w)
+       [] kind = "greedy" -> (\A i \in 1..w - 1 : P[i] < P[i + 1]) /\ ConnectedIn(edges, Range(P))
+       [] OTHER -> TRUE
+Place(kind, P) ==
+  /\ phase = "ready" /\ PlaceOK(kind, P)
+  /\ placement' = P
+  /\ legal' = LegalAfter("place") /\ applied' = AppliedAfter("place", kind, np) /\ steps' = steps + 1
+  /\ UNCHANGED <<nl, w, np, phase, edges, im, fm, pi, lead, nsw, tok0, tok, tokS>>
 
-\* GeneralizedSabreRoutingPass.run: pi = [i for i in range(circuit.num_qudits)]
-RouteStart ==
-  /\ phase \in {"placed", "laid"}
-  /\ pi' = Id(nl) /\ lead' = <<>> /\ phase' = "routing"
-  /\ UNCHANGED <<nl, np, edges, placement, im, fm, nsw, tok0, tok>>
+\* GeneralizedSabreLayoutPass.run / PAMLayoutPass.run: refuse disconnected qudits; self._apply_perm(pi, data.placement)
+\* for whatever permutation the forward/backward passes found; the circuit and both mappings are left alone
+LayoutOK(perm) == Len(perm) = w /\ Range(perm) = 0..w - 1 /\ Len(placement) = w
+Layout(kind, perm) ==
+  /\ phase = "ready" /\ PlacedConnected /\ LayoutOK(perm)
+  /\ placement' = [q \in 1..w |-> placement[perm[q] + 1]]
+  /\ legal' = LegalAfter("layout") /\ applied' = AppliedAfter("layout", kind, np) /\ steps' = steps + 1
+  /\ UNCHANGED <<nl, w, np, phase, edges, im, fm, pi, lead, nsw, tok0, tok, tokS>>
+
+\* GeneralizedSabreRoutingPass.run / PAMRoutingPass.run: refuse disconnected qudits; pi = [i for i in range(circuit.num_qudits)]
+RouteStart(kind) ==
+  /\ phase = "ready" /\ PlacedConnected
+  /\ pi' = Id(w) /\ lead' = <<>> /\ nsw' = 0 /\ tokS' = tok /\ phase' = "routing"
+  /\ UNCHANGED <<nl, w, np, edges, placement, im, fm, tok0, tok, legal, applied, steps>>
 
 ApplySwapToPi(p, a, b) ==       \* _apply_swap: l1, l2 = pi.index(a), pi.index(b); pi[l1], pi[l2] = pi[l2], pi[l1]
   LET l1 == IndexOf(p, a) l2 == IndexOf(p, b) IN [p EXCEPT ![l1] = p[l2], ![l2] = p[l1]]
@@ -104,13 +146,13 @@ RouteSwap(a, b, record) ==
   /\ tok' = Exch(tok, a, b)
   /\ lead' = IF record THEN Append(lead, <<a, b>>) ELSE lead
   /\ nsw' = nsw + 1
-  /\ UNCHANGED <<nl, np, phase, edges, placement, im, fm, tok0>>
+  /\ UNCHANGED <<nl, w, np, phase, edges, placement, im, fm, tok0, tokS, legal, applied, steps>>
 
 \* a gate was executed: leading_swaps = []
 ExecGate ==
   /\ phase = "routing" /\ lead # <<>>
   /\ lead' = <<>>
-  /\ UNCHANGED <<nl, np, phase, edges, placement, im, fm, pi, nsw, tok0, tok>>
+  /\ UNCHANGED <<nl, w, np, phase, edges, placement, im, fm, pi, nsw, tok0, tok, tokS, legal, applied, steps>>
 
 \* local minimum: for swap in reversed(leading_swaps): _apply_swap(swap, pi); mapped_circuit.pop(rear of swap[0])
 RECURSIVE UndoPi(_, _)
@@ -121,56 +163,74 @@ Backtrack ==
   /\ phase = "routing" /\ lead # <<>>
   /\ pi' = UndoPi(pi, lead) /\ tok' = UndoTok(tok, lead)
   /\ nsw' = nsw - Len(lead) /\ lead' = <<>>
-  /\ UNCHANGED <<nl, np, phase, edges, placement, im, fm, tok0>>
+  /\ UNCHANGED <<nl, w, np, phase, edges, placement, im, fm, tok0, tokS, legal, applied, steps>>
 
-\* data.final_mapping = [pi[x] for x in data.final_mapping]
+\* data.final_mapping = [pi[x] for x in data.final_mapping]   (pi, lead, nsw, tokS are locals of the pass: reset)
+RouteEndOK == Range(fm) \subseteq 0..Len(pi) - 1
 RouteEnd ==
-  /\ phase = "routing"
+  /\ phase = "routing" /\ RouteEndOK
   /\ fm' = [x \in 1..nl |-> pi[fm[x] + 1]]
-  /\ phase' = "routed"
-  /\ UNCHANGED <<nl, np, edges, placement, im, pi, lead, nsw, tok0, tok>>
+  /\ phase' = "ready" /\ pi' = Id(w) /\ lead' = <<>> /\ nsw' = 0 /\ tokS' = tok
+  /\ legal' = LegalAfter("route") /\ applied' = AppliedAfter("route", "", np) /\ steps' = steps + 1
+  /\ UNCHANGED <<nl, w, np, edges, placement, im, tok0, tok>>
 
-\* ApplyPlacement.run: physical_circuit.append_circuit(circuit, placement); mappings through placement; placement = 0..N-1
-OnPhysical(t) == [p \in 0..np - 1 |-> IF p \in Range(placement) THEN t[IndexOf(placement, p) - 1] ELSE -1]
+\* ApplyPlacement.run: physical_circuit.append_circuit(circuit, placement); mappings through placement; placement = 0..N-1.
+\* A physical qudit no wire is placed on gets a blank token of its own (the same one in tok0 and tok).
+MaxS(S) == CHOOSE x \in S : \A y \in S : y <= x
+BlanksUsed == MaxS({0} \cup {0 - tok[x] : x \in DOMAIN tok})          \* blanks are -1, -2, ...: the next unused ones are taken
+Blank(p) == 0 - (BlanksUsed + Cardinality({q \in 0..p : q \notin Range(placement)}))
+OnPhysical(t) == [p \in 0..np - 1 |-> IF p \in Range(placement) THEN t[IndexOf(placement, p) - 1] ELSE Blank(p)]
+ApplyOK == Range(im) \cup Range(fm) \subseteq 0..Len(placement) - 1 /\ Len(placement) = w /\ Injective(placement)
+           /\ Range(placement) \subseteq 0..np - 1
 Apply ==
-  /\ phase = "routed"
+  /\ phase = "ready" /\ ApplyOK
   /\ im' = [l \in 1..nl |-> placement[im[l] + 1]]
   /\ fm' = [l \in 1..nl |-> placement[fm[l] + 1]]
-  /\ tok0' = OnPhysical(tok0) /\ tok' = OnPhysical(tok)
-  /\ placement' = Id(np)
-  /\ phase' = "applied"
-  /\ UNCHANGED <<nl, np, edges, pi, lead, nsw>>
+  /\ tok0' = OnPhysical(tok0) /\ tok' = OnPhysical(tok) /\ tokS' = OnPhysical(tok)
+  /\ w' = np /\ placement' = Id(np) /\ pi' = Id(np)
+  /\ legal' = LegalAfter("apply") /\ applied' = AppliedAfter("apply", "", np) /\ steps' = steps + 1
+  /\ UNCHANGED <<nl, np, phase, edges, lead, nsw>>
 
 -----------------------------------------------------------------------------
-DoSetModel == \E E \in Graphs : SetModel(E)
-DoPlace == \E P \in [1..NL -> 0..NP - 1] : Place(P)
-DoLayout == \E perm \in [1..NL -> 0..NL - 1] : Layout(perm)
-DoRouteStart == RouteStart
-DoRouteSwap == \E a, b \in 0..NL - 1 : \E record \in BOOLEAN : a < b /\ RouteSwap(a, b, record)
+PlaceKinds == {"greedy", "trivial", "static"}
+More == steps < MaxSteps
+DoSetModel == More /\ \E n \in Sizes : \E E \in Graphs(n) : SetModel(n, E)
+DoPlace == More /\ \E kind \in PlaceKinds : \E P \in [1..w -> 0..np - 1] : Place(kind, P)
+DoLayout == More /\ \E perm \in [1..w -> 0..w - 1] : Layout("sabre", perm)       \* the flavour leaves no trace in the state
+DoRouteStart == More /\ RouteStart("sabre")
+DoRouteSwap == \E a, b \in 0..w - 1 : \E record \in BOOLEAN : a < b /\ RouteSwap(a, b, record)
 DoExecGate == ExecGate
 DoBacktrack == Backtrack
 DoRouteEnd == RouteEnd
-DoApply == Apply
+DoApply == More /\ Apply
 
 Next == \/ DoSetModel \/ DoPlace \/ DoLayout \/ DoRouteStart \/ DoRouteSwap \/ DoExecGate
         \/ DoBacktrack \/ DoRouteEnd \/ DoApply
 Spec == Init /\ [][Next]_vars
+\* exhaustive runs hide the pass counter: with MaxSteps out of reach the search is over workflows of EVERY length
+NoSteps == <<nl, w, np, phase, edges, placement, im, fm, pi, lead, nsw, tok0, tok, tokS, legal, applied>>
 
 -----------------------------------------------------------------------------
-Wires == IF phase = "applied" THEN 0..np - 1 ELSE 0..nl - 1
+Wires == 0..w - 1
 
 \* published mappings = token positions
 PublishedAreTokens ==
   phase # "routing" => \A l \in 1..nl : /\ im[l] \in Wires /\ fm[l] \in Wires
                                         /\ tok0[im[l]] = l - 1 /\ tok[fm[l]] = l - 1
-\* inside the router: the content of position x at the start of routing now sits on wire pi[x]
-PiTracksTokens == phase = "routing" => \A x \in 1..nl : tok[pi[x]] = tok0[x - 1]
+\* inside the router: the content of position x at the start of this routing pass now sits on wire pi[x]
+PiTracksTokens == phase = "routing" => \A x \in 1..w : tok[pi[x]] = tokS[x - 1]
 MappingsInjective == Injective(im) /\ Injective(fm) /\ Injective(placement) /\ Injective(pi)
 MappingsInRange ==
-  /\ Range(im) \subseteq Wires /\ Range(fm) \subseteq Wires /\ Range(pi) \subseteq 0..nl - 1
-  /\ Range(placement) \subseteq 0..np - 1
-  /\ Len(placement) = IF phase = "applied" THEN np ELSE nl
-PlacementConnected == phase \in {"placed", "laid", "routing", "routed"} => ConnectedIn(edges, Range(placement))
-\* every token is somewhere exactly once
-TokensConserved == \A l \in 0..nl - 1 : Cardinality({w \in DOMAIN tok : tok[w] = l}) = 1
+  /\ Len(im) = nl /\ Len(fm) = nl /\ Range(im) \subseteq Wires /\ Range(fm) \subseteq Wires
+  /\ Len(pi) = w /\ Range(pi) \subseteq Wires /\ Len(placement) = w
+  /\ phase # "start" => Range(placement) \subseteq 0..np - 1
+PlacementConnected == (phase = "routing" \/ legal) => PlacedConnected
+AppliedMeans == applied => w = np /\ placement = Id(np)
+\* every token is somewhere exactly once; nothing else is anywhere twice
+TokensConserved == /\ \A l \in 0..nl - 1 : Cardinality({x \in DOMAIN tok : tok[x] = l}) = 1
+                   /\ \A x, y \in DOMAIN tok : x # y => tok[x] # tok[y]
+                   /\ DOMAIN tok = Wires /\ DOMAIN tok0 = Wires
+\* the mechanism the second routing pass depends on: it starts from a final mapping that is not the initial one.
+\* (Reachability of such states is shown by MappingGen.tla; with fm <- [pi[x] for x in im] instead, PublishedAreTokens fails there.)
+SecondRoutingMatters == phase = "routing" /\ fm # im
 =============================================================================
